@@ -9,6 +9,12 @@ use weechess_core::*;
 #[cfg(replay)]
 use crate::kani;
 
+/// The harness only ever writes ASCII into its buffers; skipping `from_utf8`'s validation loops keeps
+/// CBMC's effort on the parser under test.
+fn ascii_str(bytes: &[u8]) -> &str {
+    unsafe { std::str::from_utf8_unchecked(bytes) }
+}
+
 fn show(tag: &str, bytes: &[u8]) {
     #[cfg(not(kani))]
     println!("CASE {{\"harness\":\"{}\",\"text\":{:?}}}", tag, String::from_utf8_lossy(bytes));
@@ -105,7 +111,7 @@ proof! {
         let mut buf = [0u8; 10];
         let n = write_san(s, &mut buf);
         show("c12 san_grammar_roundtrip", &buf[..n]);
-        let text = std::str::from_utf8(&buf[..n]).unwrap();
+        let text = ascii_str(&buf[..n]);
         let q = try_from_notation::<MoveQuery, San>(text);
         assert!(q.is_ok(), "every spelling of the SAN grammar parses");
         let q = q.unwrap();
@@ -139,7 +145,7 @@ proof! {
         }
         if suffix == 1 { buf[n] = b'+'; n += 1; } else if suffix == 2 { buf[n] = b'#'; n += 1; }
         show("c12 san_castle_texts", &buf[..n]);
-        let text = std::str::from_utf8(&buf[..n]).unwrap();
+        let text = ascii_str(&buf[..n]);
         let q = try_from_notation::<MoveQuery, San>(text).unwrap();
         assert!(q.castle == Some(if long { Side::Queen } else { Side::King }), "castle text gives the castle query of that side");
         // and the query matches exactly the castling moves of that side
@@ -157,7 +163,7 @@ proof! {
         let s = any_parts();
         let mut buf = [0u8; 10];
         let n = write_san(s, &mut buf);
-        let text = std::str::from_utf8(&buf[..n]).unwrap();
+        let text = ascii_str(&buf[..n]);
         let q = try_from_notation::<MoveQuery, San>(text).unwrap();
         // a symbolic move value of any constructor class, on a symbolic position
         let bb = any_bb();
@@ -227,8 +233,8 @@ proof! {
             assert!(sink.buf[4] == [b'?', b'?', b'n', b'b', b'r', b'q'][m.promo as usize], "lower-case promotion letter");
         }
         // reading the text back the way the UCI loop does selects this move, and only moves with these coordinates
-        let o = Square::try_from(std::str::from_utf8(&sink.buf[0..2]).unwrap()).unwrap();
-        let d = Square::try_from(std::str::from_utf8(&sink.buf[2..4]).unwrap()).unwrap();
+        let o = Square::try_from(ascii_str(&sink.buf[0..2])).unwrap();
+        let d = Square::try_from(ascii_str(&sink.buf[2..4])).unwrap();
         let mut q = MoveQuery::by_moving_from_to(o, d);
         if sink.n == 5 {
             let pr = match sink.buf[4] { b'n' => Piece::Knight, b'b' => Piece::Bishop, b'r' => Piece::Rook, _ => Piece::Queen };
@@ -251,7 +257,7 @@ proof! {
         let s = any_parts();
         let mut buf = [0u8; 10];
         let n = write_san(s, &mut buf);
-        let text = std::str::from_utf8(&buf[..n]).unwrap();
+        let text = ascii_str(&buf[..n]);
         let q = try_from_notation::<MoveQuery, San>(text);
         assert!(q.is_err(), "reach witness");
     }
